@@ -41,7 +41,7 @@ theorem lexIdentRest_sat {n : Int} {l0 l : Lexer} {ty : ItemType} (hn : l.len = 
     · apply Sat.bind
       apply sliceOf_sat (by lx) (by lx) (by lx)
       intro _ _
-      first | exact errorf_sat (by lx) (by inq) | exact errorfAt_sat (by lx) (by inq) (by first | exact tag_err (by lx) (by lx) (Or.inl rfl) | exact tag_err (by lx) (by lx) (Or.inr rfl))
+      first | exact errorf_sat (by lx) (by inq) | exact errorfAt_sat (by lx) (by inq) (by first | exact tag_err (by lx) (by lx) (Or.inl rfl) | exact tag_err (by lx) (by lx) (Or.inr rfl) | exact braces_err)
     · unfold emitInside
       apply Sat.bind
       apply emit_sat (by lx) (by lx) (by lx) (emitOK_mono hty (by lx))
@@ -62,7 +62,7 @@ theorem lexIdent_ok {n : Int} {l : Lexer} (hg : Good n l) :
     intro p l2 hl2 hs2 hp2 hf2
     dsimp only
     split
-    · first | exact errorf_sat (by lx) (by inq) | exact errorfAt_sat (by lx) (by inq) (by first | exact tag_err (by lx) (by lx) (Or.inl rfl) | exact tag_err (by lx) (by lx) (Or.inr rfl))
+    · first | exact errorf_sat (by lx) (by inq) | exact errorfAt_sat (by lx) (by inq) (by first | exact tag_err (by lx) (by lx) (Or.inl rfl) | exact tag_err (by lx) (by lx) (Or.inr rfl) | exact braces_err)
     · exact lexIdentRest_sat (by lx) (by lx) (by lx) (by lx) (by lx) (by lx) (by eok2) (by inq)
   split
   · exact lexIdentRest_sat (by lx) (by lx) (by lx) (by lx) (by lx) (by lx) (by eok2) (by inq)
@@ -71,7 +71,7 @@ theorem lexIdent_ok {n : Int} {l : Lexer} (hg : Good n l) :
   split
   · nx dot l2 hl2 hs2 hf2
     split
-    · first | exact errorf_sat (by lx) (by inq) | exact errorfAt_sat (by lx) (by inq) (by first | exact tag_err (by lx) (by lx) (Or.inl rfl) | exact tag_err (by lx) (by lx) (Or.inr rfl))
+    · first | exact errorf_sat (by lx) (by inq) | exact errorfAt_sat (by lx) (by inq) (by first | exact tag_err (by lx) (by lx) (Or.inl rfl) | exact tag_err (by lx) (by lx) (Or.inr rfl) | exact braces_err)
     · nx d l3 hl3 hs3 hf3
       exact lexIdentRest_sat (by lx) (by lx) (by lx) (by lx) (by lx) (by lx) (by eok2) (by inq)
   · exact lexIdentRest_sat (by lx) (by lx) (by lx) (by lx) (by lx) (by lx) (by eok2) (by inq)
@@ -327,7 +327,7 @@ theorem lexNumber_ok {n : Int} {l : Lexer} (hg : Good n l) :
   · apply Sat.bind
     apply sliceOf_sat (by lx) (by lx) (by lx)
     intro _ _
-    first | exact errorf_sat (by lx) (by inq) | exact errorfAt_sat (by lx) (by inq) (by first | exact tag_err (by lx) (by lx) (Or.inl rfl) | exact tag_err (by lx) (by lx) (Or.inr rfl))
+    first | exact errorf_sat (by lx) (by inq) | exact errorfAt_sat (by lx) (by inq) (by first | exact tag_err (by lx) (by lx) (Or.inl rfl) | exact tag_err (by lx) (by lx) (Or.inr rfl) | exact braces_err)
   · rename_i hok
     have hok' : ok = true := by simpa using hok
     have : l.pos < l1.pos := by
@@ -374,7 +374,7 @@ theorem lexHeaderParam_ok {n : Int} {l : Lexer} (hg : Good n l) :
   apply hasPrefixAt_sat (by lx) (by lx)
   intro pre hpre
   split
-  · first | exact errorf_sat (by lx) (by inq) | exact errorfAt_sat (by lx) (by inq) (by first | exact tag_err (by lx) (by lx) (Or.inl rfl) | exact tag_err (by lx) (by lx) (Or.inr rfl))
+  · first | exact errorf_sat (by lx) (by inq) | exact errorfAt_sat (by lx) (by inq) (by first | exact tag_err (by lx) (by lx) (Or.inl rfl) | exact tag_err (by lx) (by lx) (Or.inr rfl) | exact braces_err)
   · rename_i hp
     have hp' : pre = true := by simpa using hp
     have hlen := hpre hp'
@@ -405,7 +405,7 @@ theorem lexHeaderParam_ok {n : Int} {l : Lexer} (hg : Good n l) :
     intro l6 hl6 hs6 hp6 hn6
     nx c l7 hl7 hs7 hf7
     split
-    · first | exact errorf_sat (by lx) (by inq) | exact errorfAt_sat (by lx) (by inq) (by first | exact tag_err (by lx) (by lx) (Or.inl rfl) | exact tag_err (by lx) (by lx) (Or.inr rfl))
+    · first | exact errorf_sat (by lx) (by inq) | exact errorfAt_sat (by lx) (by inq) (by first | exact tag_err (by lx) (by lx) (Or.inl rfl) | exact tag_err (by lx) (by lx) (Or.inr rfl) | exact braces_err)
     · apply Sat.bind
       em l8 hl8 hp8 hs8 hw8
       apply Sat.bind
@@ -418,7 +418,7 @@ theorem lexHeaderParam_ok {n : Int} {l : Lexer} (hg : Good n l) :
       intro ch l10 lns hl10 hs10 hlo hhi hn10
       dsimp only
       split
-      · first | exact errorf_sat (by lx) (by inq) | exact errorfAt_sat (by lx) (by inq) (by first | exact tag_err (by lx) (by lx) (Or.inl rfl) | exact tag_err (by lx) (by lx) (Or.inr rfl))
+      · first | exact errorf_sat (by lx) (by inq) | exact errorfAt_sat (by lx) (by inq) (by first | exact tag_err (by lx) (by lx) (Or.inl rfl) | exact tag_err (by lx) (by lx) (Or.inr rfl) | exact braces_err)
       · apply Sat.bind
         em l11 hl11 hp11 hs11 hw11
         apply Sat.bind
@@ -442,7 +442,7 @@ theorem lexCss_ok {n : Int} {l : Lexer} (hg : Good n l) :
   unfold ScanFacts at hf2
   dsimp only
   split
-  · first | exact errorf_sat (by lx) (by inq) | exact errorfAt_sat (by lx) (by inq) (by first | exact tag_err (by lx) (by lx) (Or.inl rfl) | exact tag_err (by lx) (by lx) (Or.inr rfl))
+  · first | exact errorf_sat (by lx) (by inq) | exact errorfAt_sat (by lx) (by inq) (by first | exact tag_err (by lx) (by lx) (Or.inl rfl) | exact tag_err (by lx) (by lx) (Or.inr rfl) | exact braces_err)
   · rename_i hne
     simp only [eof] at hne
     apply Sat.bind
@@ -453,7 +453,7 @@ theorem lexCss_ok {n : Int} {l : Lexer} (hg : Good n l) :
     intro bad l5 hl5 hs5 hp5 hn5
     dsimp only
     split
-    · first | exact errorf_sat (by lx) (by inq) | exact errorfAt_sat (by lx) (by inq) (by first | exact tag_err (by lx) (by lx) (Or.inl rfl) | exact tag_err (by lx) (by lx) (Or.inr rfl))
+    · first | exact errorf_sat (by lx) (by inq) | exact errorfAt_sat (by lx) (by inq) (by first | exact tag_err (by lx) (by lx) (Or.inl rfl) | exact tag_err (by lx) (by lx) (Or.inr rfl) | exact braces_err)
     · apply Sat.bind
       em l6 hl6 hp6 hs6 hw6
       fin
@@ -470,7 +470,7 @@ theorem lexLiteral_ok {n : Int} {l : Lexer} (hg : Good n l) :
   unfold ScanFacts at hf1
   dsimp only
   split
-  · first | exact errorf_sat (by lx) (by inq) | exact errorfAt_sat (by lx) (by inq) (by first | exact tag_err (by lx) (by lx) (Or.inl rfl) | exact tag_err (by lx) (by lx) (Or.inr rfl))
+  · first | exact errorf_sat (by lx) (by inq) | exact errorfAt_sat (by lx) (by inq) (by first | exact tag_err (by lx) (by lx) (Or.inl rfl) | exact tag_err (by lx) (by lx) (Or.inr rfl) | exact braces_err)
   · rename_i hch
     have hch' : ch = 125 := by simpa using hch
     apply Sat.bind
@@ -478,7 +478,7 @@ theorem lexLiteral_ok {n : Int} {l : Lexer} (hg : Good n l) :
     intro bad l2 hl2 hs2 hp2 hn2
     dsimp only
     split
-    · first | exact errorf_sat (by lx) (by inq) | exact errorfAt_sat (by lx) (by inq) (by first | exact tag_err (by lx) (by lx) (Or.inl rfl) | exact tag_err (by lx) (by lx) (Or.inr rfl))
+    · first | exact errorf_sat (by lx) (by inq) | exact errorfAt_sat (by lx) (by inq) (by first | exact tag_err (by lx) (by lx) (Or.inl rfl) | exact tag_err (by lx) (by lx) (Or.inr rfl) | exact braces_err)
     · apply Sat.bind
       em l3 hl3 hp3 hs3 hw3
       apply Sat.bind
@@ -486,7 +486,7 @@ theorem lexLiteral_ok {n : Int} {l : Lexer} (hg : Good n l) :
       apply sliceOf_sat (by lx) (by lx) (by lx)
       intro rest hrest
       split
-      · first | exact errorf_sat (by lx) (by inq) | exact errorfAt_sat (by lx) (by inq) (by first | exact tag_err (by lx) (by lx) (Or.inl rfl) | exact tag_err (by lx) (by lx) (Or.inr rfl))
+      · first | exact errorf_sat (by lx) (by inq) | exact errorfAt_sat (by lx) (by inq) (by first | exact tag_err (by lx) (by lx) (Or.inl rfl) | exact tag_err (by lx) (by lx) (Or.inr rfl) | exact braces_err)
       · rename_i i hi
         have hle := stringsIndex_le _ _ _ hi
         have hlen : ((if l3.doubleDelim = true then closeLiteral2 else closeLiteral1).length : Int) =
